@@ -558,6 +558,23 @@ func sandboxProbe(w *World, n *Node) {
 		}
 	}
 	w.stat("probe.sandbox_error_paths", 1)
+	// 1b. KEYS and ARGV are the call's own: what a script stores into them is gone with the call,
+	// also when the call had no keys and no arguments (in every script variant)
+	for _, ev := range []string{"EVAL", "EVALNA", "EVALRO"} {
+		if _, ok := ob.do(ev, "ARGV[#ARGV+1] = 'left-behind' KEYS[#KEYS+1] = 'left-behind' return 1", "0"); !ok {
+			return
+		}
+		for _, ev2 := range []string{"EVAL", "EVALRO"} {
+			v, ok := ob.do(ev2, "return {#KEYS, #ARGV, tostring(KEYS[1]), tostring(ARGV[1])}", "0")
+			if !ok {
+				return
+			}
+			if got := v.String(); v.isErr() || len(v.A) != 4 || v.A[0].String() != ":0" || v.A[1].String() != ":0" || v.A[2].S != "nil" || v.A[3].S != "nil" {
+				w.violate("C18/sandbox", "after an %s without keys and arguments stored values into its KEYS and ARGV, the next %s without keys and arguments sees {#KEYS, #ARGV, KEYS[1], ARGV[1]} = %s", ev, ev2, clipStr(got, 160))
+				return
+			}
+		}
+	}
 	// 2. more scripts in flight than the pool holds: every interpreter - also one created on
 	// demand - must refuse new globals. The scripts' inner calls are held at the lock so that
 	// all of them are in flight at once.
